@@ -6,11 +6,11 @@ package main
 
 import (
 	"verif/mc/harness"
+	"verif/mc/platlat"
 )
 
-var runLattice func(r *harness.Run)
-
 func main() {
+	platlat.MaybeWorker() // the lattice part re-executes this binary as worker processes
 	r := harness.Start("C18", "model_checking")
 	r.Assume = []string{
 		"RDMA: the command processor sends RestartReq only after DrainRsp (valid protocol order)",
@@ -18,9 +18,7 @@ func main() {
 		"RDMA: owners (remote engines, local L2) answer every request exactly once; reply order and delay are explored",
 	}
 	r.Quiet = true
+	platlat.RunC18a(r) // in replay mode: returns at once unless the replay file is a lattice case (then it exits itself)
 	r.RunScenarios(rdmaScenarios(r))
-	if runLattice != nil && r.Replay == "" {
-		runLattice(r)
-	}
 	r.Finish()
 }
